@@ -52,10 +52,20 @@ def scenario(seed):
         later = {}
         for l in used:
             v = val(l)
+            def other(x):
+                return (not x) if isinstance(x, bool) else (x + 20 if isinstance(x, int) else ("Error" if x != "Error" else "Warning"))
+
             if l == "global":
                 cfg1["rule"]["global"] = {attr: v}
+                if r.random() < 0.3:
+                    cfg2["rule"]["global"] = {attr: other(v)}
+                    later["global"] = other(v)
             elif l == "group":
                 cfg1["rule"]["group"] = {group: {attr: v}}
+                if r.random() < 0.5:
+                    # the same group attribute in a later configuration file: the later file wins
+                    cfg2["rule"]["group"] = {group: {attr: other(v)}}
+                    later["group"] = other(v)
             elif l == "rule":
                 cfg1["rule"][target.unique_id] = {attr: v}
                 if r.random() < 0.4 and attr != "severity":
